@@ -427,6 +427,11 @@ def clamp(
     if inverted_output == "mean":
         output = leaky_clamp(input, min, max, clamped_slope=0.0, inverted_output="mean")
     elif inverted_output == "max":
+        # torch.clamp rejects a Tensor bound mixed with a Number bound
+        if min is not None:
+            min = torch.as_tensor(min).to(input)
+        if max is not None:
+            max = torch.as_tensor(max).to(input)
         output = torch.clamp(input, min, max)
     else:
         raise ValueError("inverted_output must be 'mean' or 'max'.")
